@@ -34,6 +34,8 @@ structure PWin where
   sid : Nat
   win : Int
   excess : Bool := false           -- the peer sent DATA exceeding this stream's window
+  delivered : Nat := 0             -- payload bytes sent on it in frames that fitted
+  readDone : Nat := 0              -- bytes of completed application reads
 
 structure DSt where
   started : Bool := false
@@ -48,6 +50,7 @@ structure DSt where
   pConn : Int := 65535
   pConnBad : Bool := false
   pw : List PWin := []
+  mreq : List (Nat × Nat) := []    -- worker → size of its current Read request (from the ops)
 
 structure Acc where
   st : DSt
@@ -200,15 +203,45 @@ def monToks (st : DSt) (ts : List String) : DSt × Option String :=
     (s, if acc.2.isSome then acc.2 else e)) (st, none)
 
 /-- the peer sends `size` flow-controlled bytes on `sid`: ledger update; is it within the windows? -/
-def monData (st : DSt) (sid size : Nat) : DSt × Bool :=
+def monData (st : DSt) (sid size len : Nat) : DSt × Bool :=
   let connOk := (size : Int) ≤ st.pConn
   let st := { st with pConn := st.pConn - size, pConnBad := st.pConnBad || !connOk }
   match st.pw.find? (fun p => p.sid == sid) with
   | none => (st, false)
   | some p =>
     let fits := (size : Int) ≤ p.win
-    ({ st with pw := st.pw.map (fun q => if q.sid == sid then { q with win := q.win - size, excess := q.excess || !fits } else q) },
+    ({ st with pw := st.pw.map (fun q => if q.sid == sid then
+          { q with win := q.win - size, excess := q.excess || !fits,
+                   delivered := if fits && !q.excess then q.delivered + len else q.delivered } else q) },
      !fits && connOk)
+
+/-- completed reads reported by the implementation (`rd=w:ok`) are credited to their streams -/
+def monReads (st : DSt) (implRd : List String) : DSt :=
+  implRd.foldl (fun st e =>
+    match e.splitOn ":" with
+    | [w, res] =>
+      match w.toNat? with
+      | some w =>
+        let n := ((st.mreq.find? (fun x => x.1 == w)).map (·.2)).getD 0
+        let sid := ((st.mmap.find? (fun x => x.1 == w)).map (·.2)).getD 0
+        let st := { st with mreq := st.mreq.filter (fun x => x.1 != w) }
+        if res = "ok" then
+          { st with pw := st.pw.map (fun q => if q.sid == sid then { q with readDone := q.readDone + n } else q) }
+        else st
+      | none => st
+    | _ => st) st
+
+/-- "no wedge" on the frames: a stream on which everything delivered has been read (its reader is blocked
+    waiting for more, or the completed reads add up to the payload sent) must hold a restored window
+    (`InFlow.connRestored`: the advertised initial window up to a batched credit strictly below a quarter) -/
+def monRestored (st : DSt) (implPend : List String) : Option String :=
+  if st.pConnBad then none else
+  st.pw.findSome? (fun p =>
+    let w := (st.mmap.find? (fun x => x.2 == p.sid)).map (·.1)
+    let blocked := match w with | some w => implPend.contains (toString w) | none => false
+    if !p.excess && (blocked || p.delivered == p.readDone) && !connRestored p.win st.pIws then
+      some s!"all delivered data read on stream {p.sid} but the window the peer holds is not restored to within a quarter of the advertised window"
+    else none)
 
 /-! ### one op -/
 
@@ -328,7 +361,7 @@ def step (st : DSt) (fs : List String) (impl : String) : DSt × String × String
         | some sid =>
           if implHead = "nosid" then (ms, none) else
           let size := match pad.toNat? with | some p => 1 + len + p | none => len
-          let (ms, mustReject) := monData ms sid size
+          let (ms, mustReject) := monData ms sid size len
           if mustReject && !implEv.contains s!"R{sid}:3" then
             (ms, some "DATA exceeding the advertised stream window was accepted")
           else (ms, none)
@@ -336,10 +369,19 @@ def step (st : DSt) (fs : List String) (impl : String) : DSt × String × String
       | _, _ => (ms, none)
     | _ => (ms, none)
   let (ms, tokVerdict) := monToks ms implEv
-  let verdict := match dataVerdict, tokVerdict with
-    | some e, _ => "VIOL " ++ e
-    | none, some e => "VIOL " ++ e
-    | none, none => if implEv.isEmpty && !(fs.head? == some "sdata") then "-" else "ok"
+  let ms := match fs with
+    | ["read", w, n] =>
+      match w.toNat?, n.toNat? with
+      | some w, some n => if implHead = "done" then { ms with mreq := (w, n) :: ms.mreq.filter (fun x => x.1 != w) } else ms
+      | _, _ => ms
+    | _ => ms
+  let ms := monReads ms (listOf (implField "rd=" impl))
+  let restVerdict := if implHead = "done" then monRestored ms (listOf (implField "pend=" impl)) else none
+  let verdict := match dataVerdict, tokVerdict, restVerdict with
+    | some e, _, _ => "VIOL " ++ e
+    | none, some e, _ => "VIOL " ++ e
+    | none, none, some e => "VIOL " ++ e
+    | none, none, none => if ms.pw.isEmpty && implEv.isEmpty then "-" else "ok"
   (ms, mo, verdict)
 
 def run : IO Unit := Driver.run ({} : DSt) step
